@@ -24,6 +24,8 @@
      dropped from "dict". There /Length is never consulted again (the writer recomputes it, writeStreamJSON
      drops it), and the model's stream dictionary is the real one WITHOUT /Length.
      The driver leaves /Length out of its dump in both cases (pipeStreamData sets it as a side effect).
+     The same flag also stands for proposed_fixes/C14-F4_json_value_own_reference.diff ("value": "n g R" is refused
+     for a stream as it is for every other object): lenfix = the tree after the proposed repairs of the reader.
    * an object whose value is the direct null is the same as an absent object (`jr_set`).
    * errors: JSONReactor::error sets a flag and import goes on, importJSON throws at the end; exceptions
      (QPDFObjectHandle::parse on a bad "n:/..." key, a top-level array or scalar) abort at once. Both end in
@@ -243,10 +245,13 @@ Definition jr_objtop_step (strict lenfix : bool) (num gen : N) (s : jr_ost) (kv 
     let f' := mkJrFlags true (jf_stream f) (jf_dict f) (jf_data f) (jf_datafile f) (jf_needs f) in
     match jr_make strict v with
     | (JRef n g, e, u) =>
-      (* replaceObject: an indirect replacement is refused unless it is this very stream *)
+      (* replaceObject: an indirect replacement is refused unless it is this very stream (the exception is meant for
+         the stream the reactor itself creates for "stream"); QPDF::replaceObject(og, <handle of og>) then turns the
+         object into a reference to itself: the stream is gone (known finding C14-F4) *)
       match jo_cur s with
-      | JrStream _ _ => if (n =? num) && (g =? gen) then mkJrOst (jo_cur s) f' (jo_err s || e) (jo_unm s || u)
-                        else mkJrOst (jo_cur s) f' true (jo_unm s || u)
+      | JrStream _ _ => if (n =? num) && (g =? gen) && negb lenfix
+                        then mkJrOst (JrValue (JRef n g)) f' (jo_err s || e) (jo_unm s || u)
+                        else mkJrOst (jo_cur s) f' true (jo_unm s || u)     (* always, after the repair of C14-F4 *)
       | JrValue _ => mkJrOst (jo_cur s) f' true (jo_unm s || u)
       end
     | (o, e, u) => mkJrOst (JrValue o) f' (jo_err s || e) (jo_unm s || u)
